@@ -595,6 +595,46 @@ func main() {
 		file := g.file
 		emitLits(g.def, file+": integer / float / character literals per function, sorted", files, func(base string) bool { return base == file })
 	}
+	// every index and slice expression of the hand-written token and integer readers, in source order: the places where the
+	// checked model (Model/ApiChecked.lean) has an explicit bounds test or, for a 256-entry table indexed by a byte, none
+	{
+		type fl struct{ name, sites string }
+		var rows []fl
+		for path, f := range files {
+			base := filepath.Base(path)
+			if base != "token.go" && base != "simple_readers.go" && base != "decode.go" {
+				continue
+			}
+			for _, d := range f.Decls {
+				fd, ok := d.(*ast.FuncDecl)
+				if !ok || fd.Body == nil || strings.HasSuffix(fd.Name.Name, "Compat") {
+					continue
+				}
+				var sites []string
+				ast.Inspect(fd.Body, func(n ast.Node) bool {
+					switch e := n.(type) {
+					case *ast.IndexExpr:
+						sites = append(sites, src(e))
+					case *ast.SliceExpr:
+						sites = append(sites, src(e))
+					}
+					return true
+				})
+				if len(sites) > 0 {
+					rows = append(rows, fl{funcKey("", fd), strings.Join(sites, " | ")})
+				}
+			}
+		}
+		sort.Slice(rows, func(i, j int) bool { return rows[i].name < rows[j].name })
+		fmt.Fprintf(&b, "/-- token.go, simple_readers.go, decode.go: every index and slice expression per function, in source order -/\ndef indexSites : List (String × String) := [")
+		for i, r := range rows {
+			if i > 0 {
+				b.WriteString(", ")
+			}
+			fmt.Fprintf(&b, "(%q, %q)", r.name, r.sites)
+		}
+		b.WriteString("]\n")
+	}
 	reach, sites, aerr := allocFacts(*repo)
 	if aerr != nil {
 		fmt.Fprintln(os.Stderr, aerr)
